@@ -285,6 +285,21 @@ def fam_f2(tier):
                                'extract': True}
 
 
+def fam_f2b(tier):
+    """zero-length files at every position including the first sector past a full disc"""
+    for kind, first in (('acorn', 2), ('watford', 4)):
+        for T in (first + 1, 12, 400):
+            for st in sorted(set([first, first + 1, T - 1, T])):
+                # the disc is otherwise full: one file from `first` to the end
+                files = [ent('EMPTY', st, 0), ent('FULL', first, (T - first) * 256)]
+                if st < first:
+                    continue
+                files.sort(key=lambda f: -f[6])
+                spec = {'kind': kind, 'tracks': 40, 'spt': 10, 'ext': 'ssd', 'total': T, 'files': files, 'files2': []}
+                yield {'spec': spec, 'targets': 'all', 'cmds': ['bin', 'type', 'list', 'dump'], 'sig': 'C01:F2b:empty-file:' + kind,
+                       'extract': True}
+
+
 def fam_f3(tier):
     """entry counts 0..31 / every split i+j of the Watford halves"""
     def mk(n, first):
@@ -390,7 +405,7 @@ def fam_f6(tier):
                                'sig': 'C01:F6:%s:%s:%dx%d' % (kind, ext, tracks, spt), 'extract': True}
 
 
-FAMILIES = [('F3-entry-count', fam_f3), ('F4-name-spelling', fam_f4), ('F5-opus-volumes', fam_f5),
+FAMILIES = [('F2b-empty-files', fam_f2b), ('F3-entry-count', fam_f3), ('F4-name-spelling', fam_f4), ('F5-opus-volumes', fam_f5),
             ('F6-geometry-container', fam_f6), ('F2-all-layouts', fam_f2), ('F1-start-length-domain', fam_f1)]
 
 
